@@ -1,17 +1,26 @@
 """C11 - plate-carree samplers return the source pixel containing each sky point.
 
 Spec: spec/PlateCarree.tla.  Angles are integer units chosen so that every cell edge and every cell centre is an
-even unit; the test angles are the odd units (never on an edge) plus the two poles.  TLC explores one state per
-configuration (layout, nx, ny, resolution g, point family) and checks in every state the property's sentences
-(exactly one containing cell, in range, period 2*pi - also +-far turns -, direction, where longitude 0 falls,
-+90 on the top row, mirror/shift relations of the docstrings), that the closed forms and the transcription of
-vec2pix (normalise, lon0/lat0, round-half-even, clip) compute that cell in exact arithmetic, and the refinement
-action property.  Every state emits the expected value of an arange map for every (lon unit, lat unit).
+even unit.  Three point families: "full" / "edge" use the odd units (never on an edge) plus the two poles and have ONE
+expected cell per point; "grid" uses the cell edges and centres themselves (the seam at the map edge, the corners and the
+poles included) and has the SET of admissible cells per point (the cells sharing the edge; the property admits either).
+TLC explores one state per configuration (layout, nx, ny, resolution g, family) and checks in every state the
+property's sentences (exactly one containing cell, in range, period 2*pi - also +-far turns -, direction, where
+longitude 0 falls, +90 on the top row, mirror/shift relations of the docstrings), that the closed forms and the
+transcription of vec2pix (normalise, lon0/lat0, round-half-even, clip) compute that cell in exact arithmetic, the
+refinement action property, and for the grid family the Boundary theorem (admissible set = the cells of the two odd
+neighbours, two cells on an edge - columns 0 and nx-1 of the same row at the seam -, one row at a pole, periodic, and the
+code's rounding picks an admissible one).  Every state emits the expected value(s) of an arange map for every
+(lon unit, lat unit).
 
 Binding (spec -> code): for every emitted table the real sampler of that layout is built on data[r, c] = r*nx + c
-(scalar map) and on an RGB map, called on the grid of those angles, and compared value by value; result shape =
-request shape + colour axes; no exception.  "sky" tables are also pushed through plate_carree_galactic_sampler at
-the ICRS coordinates whose Galactic image (astropy, trusted) are the table's angles.
+(scalar map), on an RGB map and on a second map with other content, called on the grid of those angles (grid family: in
+three float renderings of the same angle, e.g. exactly math.pi for the seam), and compared value by value; result
+shape = request shape + colour axes; no exception.  Call-history independence: a second request with the same shape, first
+and last point (and every order-insensitive digest) but permuted interior points, two live samplers of different maps
+called alternately with identical requests, and the same request arrays modified in place between calls must each give
+TLC's value for every point.  "sky" tables are also pushed through plate_carree_galactic_sampler (same battery) at the
+ICRS coordinates whose Galactic image (astropy, trusted) are the table's angles.
 """
 import json
 import math
@@ -249,8 +258,10 @@ def run(ctx):
     ctx.rule = ("configurations = (layout, nx, ny, resolution g, point family) enumerated by the harness; TLC checks the layout "
                 "theorems in every configuration and emits the expected arange-map value for every (lon unit, lat unit) of the "
                 "family (full: every odd unit of three periods + one period moved by +-far turns, every odd latitude unit and the "
-                "poles; edge: the units adjacent to every cell edge and centre at 1/(4g) of a cell); each table is pushed through "
-                "the real sampler (scalar and RGB maps, four request shapes) and, for the sky layout, the Galactic sampler. "
+                "poles; edge: the units adjacent to every cell edge and centre at 1/(4g) of a cell; grid: the cell edges, corners and centres "
+                "themselves with the set of admissible cells, in three float renderings); each table is pushed through "
+                "the real sampler (scalar, RGB and a second map, four request shapes, then a call-history sequence with colliding "
+                "requests: permuted interior, alternating samplers, request arrays modified in place) and, for the sky layout, the Galactic sampler. "
                 "distinct = distinct (layout, nx, ny, g, family); every table is non-trivial (>= 4 points)")
     if ctx.replay_path:
         rep = json.load(open(ctx.replay_path))["replay"]
@@ -295,6 +306,6 @@ def run(ctx):
     ctx.exhaustive = False
     ctx.note("tables", ntab)
     ctx.assume("astropy's ICRS<->Galactic rotation is trusted (the Galactic sampler is judged relative to it)")
-    ctx.assume("test angles are at least 1/(4g) of a cell away from every cell edge (g up to 10^6 in the thorough tier); "
-               "points closer than that to an edge are not judged (the property allows either neighbour within rounding)")
+    ctx.assume("strict test angles are at least 1/(4g) of a cell away from every cell edge (g up to 10^6 in the thorough tier); points exactly on "
+               "an edge (any float rendering) must resolve to one of the cells sharing it; points strictly between are not sampled")
     ctx.assume("plate_carree_ecliptic_sampler and ChunkedPlateCarreeSampler are outside the property's anchors and are not judged")
